@@ -138,11 +138,19 @@ def bump(d, k, n=1):
     d[k] = d.get(k, 0) + n
 
 
-def save_replay(path, header, plan):
+def save_replay(path, header, plan, prelude=None):
     os.makedirs(os.path.dirname(path), exist_ok=True)
+    doc = {"header": header, "plan": plan}
+    if prelude:
+        doc["prelude"] = prelude  # plans executed first in the same process (process-level history)
     with open(path, "w") as f:
-        json.dump({"header": header, "plan": plan}, f, indent=1, sort_keys=True)
+        json.dump(doc, f, indent=1, sort_keys=True)
         f.write("\n")
+
+
+def load_prelude(path):
+    with open(path) as f:
+        return json.load(f).get("prelude", [])
 
 
 def load_replay(path):
